@@ -64,7 +64,7 @@ def r1_compare_all(repo=None):
             r.ok("%s:%s %s" % (LIB, hm[0].line, ctor.name), "non-zero result of digital_rf_handle_metadata -> return NULL; the "
                  "success return is dominated by the call")
     ext = cfront.ext(repo)
-    fi = ext.fn("_py_rf_write_hdf5_init")
+    fi = ext.fn(cfront.ext_fn(ext, "init"))
     gi = _cfg.build_c(fi)
     mk = fi.calls(("digital_rf_create_write_hdf5",))
     if len(mk) != 1:
